@@ -59,6 +59,10 @@ def main():
     M, outs, crashes = run_cases("h_solve", cases, per_case_timeout=60)
     ck.cov["crashes_seen"] = [dict(case=cid, rc=rc) for cid, rc, err in crashes]
     scripts = dict(cases)
+    for cid, rc, err in crashes:
+        if rc == -999:
+            ck.violation("hang_%s.txt" % cid, scripts[cid], "QSexact_solver (%s) did not terminate within the time limit on LP %s" % (meta[cid][1]["entry"], meta[cid][0]["name"]),
+                         match=dict(kind="hang", numbers=meta[cid][0].get("numbers", "small")))
     cos = {}
     for cid, toks in outs.items():
         co = CaseOut(toks)
